@@ -49,6 +49,11 @@ fn scenario(name: &str) -> Vec<CallSpec> {
         "putmut_getmut" => vec![c("p", "putmut", "M", None), ds("g", "getmut", "M", 0)],
         "put_get_during_store" => vec![c("p", "put", "A", None), ds("g", "get", "A", 0)],
         "putmut_twice_cached" => vec![c("p1", "putmut", "M", None), c("p2", "putmut2", "M", Some(0)), ds("g", "getmut_seq", "M", 1)],
+        // an announce while a lookup of the info_hash is in flight - of the same flavour (peers / signed peers) and of the OTHER one
+        "peers_announce" => vec![c("g", "peers", "A", None), c("a", "announce", "A", None)],
+        "peers_sannounce" => vec![c("g", "peers", "A", None), c("a", "sannounce", "A", None)],
+        "speers_announce" => vec![c("g", "speers", "A", None), c("a", "announce", "A", None)],
+        "speers_sannounce" => vec![c("g", "speers", "A", None), c("a", "sannounce", "A", None)],
         "three" => vec![c("f", "fn", "A", None), c("p", "put", "A", None), c("g", "get", "A", None)],
         _ => vec![c("g", "get", "A", None)],
     }
@@ -194,6 +199,13 @@ pub fn run_plan(b: u64, plan: &Value, seed: u64) -> Value {
                         "fn" => sim.call_get(c, GetKind::FindNode, t, specs[i].label),
                         "closest" => sim.call_get(c, GetKind::ClosestNodes, t, specs[i].label),
                         "peers" => sim.call_get(c, GetKind::Peers, t, specs[i].label),
+                        "speers" => sim.call_get(c, GetKind::SignedPeers, t, specs[i].label),
+                        "sannounce" => {
+                            let sk = crypto::keypair(9);
+                            let ts = v::unix_micros();
+                            let sig = crypto::sign(&sk, &crypto::announce_signable(&t, ts));
+                            sim.call_put(c, PutRequestSpecific::AnnounceSignedPeer(v::AnnounceSignedPeerRequestArguments { info_hash: Id::from(t), t: ts, k: sk.verifying_key().to_bytes(), sig }), None, specs[i].label)
+                        }
                         "announce" => sim.call_put(c, PutRequestSpecific::AnnouncePeer(v::AnnouncePeerRequestArguments { info_hash: Id::from(t), port: 9, implied_port: None }), None, specs[i].label),
                         _ => {
                             let value: &[u8] = if specs[i].target == "A" { &val } else { b"another value" };
